@@ -2,9 +2,9 @@
 # runs the reproducer against /repo's working tree without writing into it
 set -e
 D=$(mktemp -d /tmp/c16style.XXXXXX)
-cp "$(dirname "$0")/zz_repro_style_test.go.txt" "$D/zz_repro_style_test.go"
-printf '{"Replace":{"/repo/fontscan/zz_repro_style_test.go":"%s/zz_repro_style_test.go"}}' "$D" > "$D/overlay.json"
-cd /repo && GOFLAGS=-mod=mod GOPROXY=off GOSUMDB=off GOTOOLCHAIN=local timeout 300 go test -vet=off -count=1 -overlay "$D/overlay.json" -run TestReproCorruptedStyle -v ./fontscan/ | tail -8
+cp "$(dirname "$0")/zz_repro_style_test.go.txt" "$D/zz_repro_style_test.go"; cp "$(dirname "$0")/zz_repro_weight_test.go.txt" "$D/zz_repro_weight_test.go"
+printf '{"Replace":{"/repo/fontscan/zz_repro_style_test.go":"%s/zz_repro_style_test.go","/repo/fontscan/zz_repro_weight_test.go":"%s/zz_repro_weight_test.go"}}' "$D" "$D" > "$D/overlay.json"
+cd /repo && GOFLAGS=-mod=mod GOPROXY=off GOSUMDB=off GOTOOLCHAIN=local timeout 300 go test -vet=off -count=1 -overlay "$D/overlay.json" -run TestReproCorrupted -v ./fontscan/ | tail -8
 rc=$?
 rm -rf "$D"
 exit $rc
